@@ -82,6 +82,13 @@ def spellings():
                     hs = list(BASE_H)
                     hs.insert(2, line)
                     out.append((req + CRLF + CRLF.join(hs) + CRLF + CRLF).encode() + body)
+    # 1*DIGIT: leading zeros are a legal spelling of the number (fixed-width writers), whatever their count
+    for name, pre in (("Content-Length", " "), ("l", ""), ("CONTENT-LENGTH", "\r\n ")):
+        for width in (2, 5, 6, 8, 10, 20, 40):
+            line = "%s:%s%s" % (name, pre, str(len(body)).rjust(width, "0"))
+            hs = list(BASE_H)
+            hs.insert(2, line)
+            out.append((req + CRLF + CRLF.join(hs) + CRLF + CRLF).encode() + body)
     # SWS may contain a line fold: the value on a continuation line (blank or tab), before and after the number
     for name in ("Content-Length", "l", "CONTENT-LENGTH"):
         for post in ("\r\n ", "\r\n\t", " \r\n  ", "\r\n \t "):
